@@ -156,6 +156,10 @@ def run(run):
             if s[0] in heavy and i % 3:
                 continue
             items.append((d, nm, s, bool(i % 2)))
+    for i, d in enumerate(sweep.comp3plus1()[:4 if not run.thorough else 12]):
+        nm = sweep.NAMINGS[4][i % len(sweep.NAMINGS[4])]
+        items.append((d, nm, ("ParCons",), True))
+        items.append((d, nm, ("ParCons(nocplex)", "Borda"), True))
     for i in range(nseq):
         d, k = dsl[rnd.randrange(len(dsl))]
         seq = pairs[rnd.randrange(len(pairs))]
@@ -163,7 +167,7 @@ def run(run):
             continue
         items.append((d, sweep.NAMINGS[k[0]][i % len(sweep.NAMINGS[k[0]])], seq, bool(i % 2)))
     run.bounds = {"datasets": len(dsl), "operations": OPS, "sequences": "every single operation + %d sampled ordered pairs" % nseq,
-                  "sizes": "n <= 3, m <= 3 incl. empty rankings"}
+                  "sizes": "n <= 3, m <= 3 incl. empty rankings; plus n=4 datasets with a non-tieable component and a further element (ParCons sub-problems)"}
     run.assumptions = ["dataset shapes and operation sequences enumerated / sampled (declared enumeration), scheme symbolic",
                        "nondeterministic choices (pivots, ILP optimum) of the shared run are pinned in the fresh run",
                        "snapshot = rankings, buckets, positions, domains, both id maps, flags, name, both matrices, penalty terms and list identities"]
